@@ -250,7 +250,9 @@ func init() {
 		Run: func(w *World, r *Report) {
 			v2 := w.Pkg(pathV2)
 			ruleNoEmpty(w, r, v2, "v2", "Remove", "Add")
+			ruleOptFwd(w, r, v2, "v2", "Option", diffSide, nil)
 			ruleSetMember(w, r, v2, "v2", "Remove", "Add")
+			ruleWholeObject(w, r, v2, "v2", "Add")
 			ruleProv(w, r, v2, "v2", v2Prov)
 			rulePathFresh(w, r, v2, "v2")
 			r.Floor("R-PROV", 20)
@@ -301,6 +303,7 @@ func init() {
 			rulePtr(w, r, v2, "v2")
 			rulePair(w, r, v2, "v2")
 			ruleRevAdd(w, r, v2, "v2", "Add")
+			rulePureEntries(w, r, v2, newPatchFamily(w, v2, "v2"), map[string]bool{"Diff.RenderPatch": true})
 			r.Floor("R-PTR", 6)
 		}})
 	register(&PropSpec{ID: "C10",
@@ -315,6 +318,7 @@ func init() {
 			rulePrepend(w, r, v2)
 			pf := newPatchFamily(w, v2, "v2")
 			ruleFWD(w, r, pf, []string{"before", "after"})
+			rulePureEntries(w, r, v2, pf, map[string]bool{"Diff.RenderPatch": true})
 			r.Floor("R-FWD", 25)
 		}})
 	register(&PropSpec{ID: "C11",
@@ -325,6 +329,8 @@ func init() {
 			v2 := w.Pkg(pathV2)
 			ruleMergeHunkDiff(w, r, v2)
 			ruleMergeRender(w, r, v2)
+			rulePathFresh(w, r, v2, "v2")
+			ruleWholeObject(w, r, v2, "v2", "Add")
 		}})
 	register(&PropSpec{ID: "C12",
 		Explain: "Decides structural necessary conditions of reading RFC 7386: (R-MERGEHUNK, reader side) every hunk readMergeInto builds carries Metadata.Merge, a null becomes a void addition (delete), and patchAll selects merge strategy exactly for hunks with the flag (R-FWD driver), so the leaf patch replaces instead of demanding an old value.",
